@@ -57,6 +57,10 @@ func RandomHistories(w *WorldJSON, seed int64, n, depth int, routers []string, f
 			}
 			for s := 0; s < depth; s++ {
 				op, args := g.next()
+				if fm := faultMethods[op]; len(fm) > 0 && rng.Intn(10) == 0 {
+					// C10: a storage call fails while this request is served
+					args["fault"] = fm[rng.Intn(len(fm))]
+				}
 				emit(op, args)
 			}
 		}
@@ -112,7 +116,7 @@ func (g *gen) client() string {
 	if g.rng.Intn(15) == 0 {
 		return "cz"
 	}
-	return g.pick("cw", "cw", "cx", "cx", "cp", "cj", "cs", "cd")
+	return g.pick("cw", "cw", "cx", "cx", "cp", "cj", "cs", "cd", "cn")
 }
 
 func (g *gen) rightCred(c string) M {
@@ -141,6 +145,10 @@ func (g *gen) cred(c string) M {
 		return M{"kind": "assertion", "secret": "none", "key": g.pick("own", "foreign")}
 	case 3:
 		return M{"kind": g.pick("basic", "post"), "secret": "right", "key": "none"}
+	case 4:
+		if cl, ok := g.w.Clients[c]; ok && (cl.Auth == "basic" || cl.Auth == "post") {
+			return M{"kind": "basic", "secret": "right", "key": "none", "alias": g.pick("cw", "cx", "cd", "cp", "cs")}
+		}
 	}
 	return g.rightCred(c)
 }
@@ -175,13 +183,31 @@ func (g *gen) uriOf(c string) string {
 	return g.pick("evil", "ucw", "ucx", "")
 }
 
+// faultMethods: storage methods that may be made to fail during an operation of a random history. Failures after a
+// refresh-token rotation are left to the C10 sweep (the abstract state of the monitor cannot know whether the store rotated).
+var faultMethods = map[string][]string{
+	"Authorize":       {"GetClientByClientID", "CreateAuthRequest"},
+	"Callback":        {"AuthRequestByID", "GetClientByClientID", "SaveAuthCode", "CreateAccessToken", "SigningKey", "DeleteAuthRequest", "SetUserinfoFromScopes"},
+	"CodeExchange":    {"AuthRequestByCode", "GetClientByClientID", "AuthorizeClientIDSecret", "CreateAccessToken", "CreateAccessAndRefreshTokens", "SigningKey", "DeleteAuthRequest", "DeleteAuthRequest", "SetUserinfoFromScopes", "GetPrivateClaimsFromScopes"},
+	"Refresh":         {"TokenRequestByRefreshToken", "GetClientByClientID", "AuthorizeClientIDSecret"},
+	"UserInfo":        {"SetUserinfoFromToken", "KeySet"},
+	"Introspect":      {"SetIntrospectionFromToken", "AuthorizeClientIDSecret", "KeySet"},
+	"Revoke":          {"RevokeToken", "GetRefreshTokenInfo", "KeySet", "AuthorizeClientIDSecret"},
+	"DeviceAuthorize": {"StoreDeviceAuthorization", "GetClientByClientID"},
+	"Poll":            {"GetDeviceAuthorizatonState", "CreateAccessToken", "CreateAccessAndRefreshTokens", "SigningKey"},
+	"ClientCreds":     {"ClientCredentials", "ClientCredentialsTokenRequest", "CreateAccessToken", "SigningKey"},
+	"JWTBearer":       {"GetKeyByIDAndClientID", "ValidateJWTProfileScopes", "CreateAccessToken"},
+	"TokenExchange":   {"ValidateTokenExchangeRequest", "CreateTokenExchangeRequest", "CreateAccessToken", "CreateAccessAndRefreshTokens", "SigningKey", "TokenRequestByRefreshToken"},
+	"EndSession":      {"TerminateSession", "GetClientByClientID", "KeySet"},
+}
+
 var focusWeights = map[string]map[string]int{
 	"issue": {"Authorize": 4, "Login": 4, "Callback": 6, "CodeExchange": 8, "Refresh": 5, "DeviceAuthorize": 2, "Approve": 2, "Poll": 4,
 		"ClientCreds": 2, "JWTBearer": 2, "TokenExchange": 5},
 	"authorize": {"Authorize": 10, "Login": 5, "Callback": 8, "CodeExchange": 2},
 	"code":     {"Authorize": 4, "Login": 4, "Callback": 5, "CodeExchange": 10, "Refresh": 1, "UserInfo": 1, "EndSession": 1},
 	"refresh":  {"Authorize": 3, "Login": 3, "Callback": 4, "CodeExchange": 5, "Refresh": 10, "Revoke": 1},
-	"tokenuse": {"Authorize": 3, "Login": 3, "Callback": 4, "CodeExchange": 5, "Refresh": 1, "UserInfo": 4, "Introspect": 5, "Revoke": 4, "Expire": 1, "EndSession": 2},
+	"tokenuse": {"Authorize": 3, "Login": 3, "Callback": 4, "CodeExchange": 5, "Refresh": 1, "UserInfo": 4, "Introspect": 5, "Revoke": 4, "Expire": 1, "EndSession": 2, "TokenExchange": 3},
 	"device":   {"DeviceAuthorize": 4, "Approve": 3, "Deny": 1, "ExpireDevice": 1, "Poll": 10, "UserInfo": 1},
 	"logout":   {"Authorize": 3, "Login": 3, "Callback": 4, "CodeExchange": 5, "EndSession": 8, "UserInfo": 1},
 	"exchange": {"Authorize": 3, "Login": 3, "Callback": 4, "CodeExchange": 6, "TokenExchange": 12, "Revoke": 1, "Expire": 1, "UserInfo": 1, "Introspect": 1},
@@ -251,7 +277,7 @@ func (g *gen) next() (string, M) {
 	d := g.d
 	switch op := g.chooseOp(); op {
 	case "Authorize":
-		c := g.pick("cw", "cw", "cx", "cx", "cp", "cj", "cz")
+		c := g.pick("cw", "cw", "cx", "cx", "cp", "cj", "cn", "cz")
 		rtype := "code"
 		if c == "cx" && g.rng.Intn(2) == 0 {
 			rtype = g.pick("id_token", "id_token token")
